@@ -1,5 +1,5 @@
 """C18 — hrepack preserves all content while changing only layout."""
-from engine.h4v import H
+from engine.h4v import H, REPO
 
 META = dict(
     bounds=["K3: hrepack's layout decision options_get_info/options_get_object with symbolic global and per-object options (-c/-t for all or listed objects, chunk rank incl. NONE, "
@@ -20,6 +20,6 @@ def plan(ctx, tier, seed):
     for match in (0, 1):
         hs.append(H("C18.K3.decide.match%d" % match, "C18", src="harness/C18/k3_decide.c",
                     units=["mfhdf/hrepack/hrepack_utils.c", "mfhdf/hrepack/hrepack_opttable.c"], models=["herr", "memloops"], defs={"MATCH": match},
-                    unwind=12, kind="K", timeout=900, mf=True, field_sens=64, extra_cc=["-I/repo/mfhdf/hrepack"],
+                    unwind=12, kind="K", timeout=900, mf=True, field_sens=64, extra_cc=["-I" + REPO + "/mfhdf/hrepack"],
                     symbolic="all option fields, rank, existing layout", bound="1 table entry, rank <= 2", group="C18.K3"))
     return hs
